@@ -16,7 +16,7 @@ MANIFEST = {
 		'every concrete struct of both shipped schemas (80/84 Symbol, 33/35 NEM; conditionals, sizeof/sizeref, fill and aligned arrays, '
 		'out-of-order unions, parents with and without @size window), and the same for factory decoding (decf_enc_partial); `_partial` '
 		'because the fragment is given by deciders, not by wf_schema. The interpreter is tied to the 14 000 generated codec lines by running both on schema-directed values of EVERY class of both '
-		'modules (enumerated by reflection) and on mutated encodings (serialize, size, deserialize, factory deserialize, re-encode).',
+		'modules (enumerated by reflection) and on mutated encodings (serialize, size, deserialize, factory deserialize, re-encode). Bytes direction (Cats/StructStable*.v, StructReencode*.v): whatever deserialize / the factory return is an admissible value; a value decoded from bytes whose sub-objects are below 2^32 bytes re-encodes, and the re-encoded bytes decode to the same value and re-encode to themselves (the bound is necessary: known finding with a 4 GiB NEM transfer, replayed by the thorough tier).',
 	'design_ref': 'DESIGN.md section 4, C01 and section 3.3',
 	'technique': 'Coq proof over a schema interpreter (regenerated schema + operators) + vm_compute differential against the generated Python codecs',
 }
